@@ -93,6 +93,10 @@ def replay(spec):
             term = M.parse_general_expression(text)
         except Exception as e:
             return {"reproduced": True, "observed": "rejected: %s: %s" % (type(e).__name__, e), "expected": "a value"}
+    if spec.get("mode") == "step-consistency":
+        a_, b_ = term.py_evaluate(sv, pv, t), term.py_volume_evaluate(sv, pv, V, t)
+        return {"reproduced": bool(a_ != b_), "observed": "'%s' with every step argument exactly 0: plain evaluation %r, volume-aware evaluation (V = %s) %r" % (text, a_, V, b_),
+                "expected": "the same value"}
     got = term.py_volume_evaluate(sv, pv, V, t) if vol else term.py_evaluate(sv, pv, t)
     env = {s: float(v["s_" + s]) for s in SPECIES}
     env.update({("_p" if p == "p" else p): pd[p] for p in PARAMS})
